@@ -9,8 +9,9 @@ EXTENDS Integers, Sequences, FiniteSets
 CONSTANTS MaxNodes, Keys, Kinds, Prios, MaxSteps, Bounded, MaxPath
     \* Bounded: kinds that have an "oob" class (bounds / options / units)
 
-VARIABLES nodes, cnt, steps, op
-pvars == <<nodes, cnt, steps, op>>
+VARIABLES nodes, cnt, steps, op,
+          ins       \* insertion counter: a node's seq is the moment it was (last) added to its parent
+pvars == <<nodes, cnt, steps, op, ins>>
 
 Valid == {"v1", "v2"}
 Root == 1
@@ -20,7 +21,7 @@ Kids(m) == {i \in 1..cnt : nodes[i].alive /\ nodes[i].parent = m}
 ChildWithKey(m, k) == {i \in Kids(m) : nodes[i].key = k}
 
 (* listing order of a map: display priority, ties in insertion order *)
-Less(i, j) == nodes[i].prio < nodes[j].prio \/ (nodes[i].prio = nodes[j].prio /\ i < j)
+Less(i, j) == nodes[i].prio < nodes[j].prio \/ (nodes[i].prio = nodes[j].prio /\ nodes[i].seq < nodes[j].seq)
 RECURSIVE Order(_)
 Order(S) == IF S = {} THEN <<>>
             ELSE LET m == CHOOSE i \in S : \A j \in S : j = i \/ Less(i, j) IN <<m>> \o Order(S \ {m})
@@ -41,14 +42,14 @@ PathOf(i) == IF nodes[i].parent = Root THEN <<nodes[i].key>> ELSE PathOf(nodes[i
 RECURSIVE Under(_, _)
 Under(i, a) == i = a \/ (i # Root /\ nodes[i].parent # 0 /\ Under(nodes[i].parent, a))
 
-Blank == [kind |-> "none", key |-> "", parent |-> 0, prio |-> 0, ro |-> FALSE, val |-> "none", def |-> "none", alive |-> FALSE]
+Blank == [kind |-> "none", key |-> "", parent |-> 0, prio |-> 0, ro |-> FALSE, val |-> "none", def |-> "none", alive |-> FALSE, det |-> FALSE, seq |-> 0]
 Init == /\ nodes = [i \in 1..MaxNodes |-> IF i = Root
-                       THEN [kind |-> "map", key |-> "root", parent |-> 0, prio |-> 1, ro |-> TRUE, val |-> "map", def |-> "none", alive |-> TRUE]
+                       THEN [kind |-> "map", key |-> "root", parent |-> 0, prio |-> 1, ro |-> TRUE, val |-> "map", def |-> "none", alive |-> TRUE, det |-> FALSE, seq |-> 0]
                        ELSE Blank]
-        /\ cnt = 1 /\ steps = 0 /\ op = [a |-> "Init"]
+        /\ cnt = 1 /\ steps = 0 /\ op = [a |-> "Init"] /\ ins = 0
 
 More == steps < MaxSteps /\ steps' = steps + 1
-Same == nodes' = nodes /\ cnt' = cnt
+Same == nodes' = nodes /\ cnt' = cnt /\ ins' = ins
 
 (* construct a parameter (leaf or map) with a parent: registered only if everything is valid *)
 New(kind, key, par, dclass, ro, prio) ==
@@ -59,7 +60,9 @@ New(kind, key, par, dclass, ro, prio) ==
        IF ok THEN /\ cnt' = cnt + 1
                   /\ nodes' = [nodes EXCEPT ![cnt + 1] =
                         [kind |-> kind, key |-> key, parent |-> par, prio |-> prio, ro |-> ro,
-                         val |-> IF kind = "map" THEN "map" ELSE "v1", def |-> IF kind = "map" THEN "none" ELSE "v1", alive |-> TRUE]]
+                         val |-> IF kind = "map" THEN "map" ELSE "v1", def |-> IF kind = "map" THEN "none" ELSE "v1", alive |-> TRUE,
+                         det |-> FALSE, seq |-> ins + 1]]
+                  /\ ins' = ins + 1
                   /\ op' = [a |-> "New", kind |-> kind, key |-> key, par |-> par, dclass |-> dclass, ro |-> ro, prio |-> prio,
                             res |-> "ok", id |-> cnt + 1]
        ELSE Same /\ op' = [a |-> "New", kind |-> kind, key |-> key, par |-> par, dclass |-> dclass, ro |-> ro, prio |-> prio,
@@ -73,7 +76,7 @@ SetEffect(i, vclass) ==   \* shared by set_value on the object and model.set_par
 SetValue(i, vclass) ==
     /\ More /\ Alive(i) /\ (vclass = "oob" => nodes[i].kind \in Bounded)
     /\ LET e == SetEffect(i, vclass) IN
-       /\ nodes' = e[1] /\ cnt' = cnt
+       /\ nodes' = e[1] /\ cnt' = cnt /\ ins' = ins
        /\ op' = [a |-> "SetValue", id |-> i, vclass |-> vclass, res |-> e[2]]
 
 ModelSet(path, vclass) ==
@@ -82,7 +85,7 @@ ModelSet(path, vclass) ==
        IF i = 0 THEN Same /\ op' = [a |-> "ModelSet", path |-> path, vclass |-> vclass, res |-> "KeyError"]
        ELSE /\ (vclass = "oob" => nodes[i].kind \in Bounded)
             /\ LET e == SetEffect(i, vclass) IN
-               /\ nodes' = e[1] /\ cnt' = cnt
+               /\ nodes' = e[1] /\ cnt' = cnt /\ ins' = ins
                /\ op' = [a |-> "ModelSet", path |-> path, vclass |-> vclass, res |-> e[2]]
 
 Get(path) ==
@@ -95,9 +98,25 @@ Remove(path) ==
     /\ More
     /\ LET i == Resolve(Root, path) IN
        IF i = 0 THEN Same /\ op' = [a |-> "Remove", path |-> path, res |-> "KeyError", id |-> 0]
-       ELSE /\ nodes' = [j \in 1..MaxNodes |-> IF j <= cnt /\ nodes[j].alive /\ Under(j, i) THEN [nodes[j] EXCEPT !.alive = FALSE] ELSE nodes[j]]
-            /\ cnt' = cnt
+       ELSE /\ nodes' = [nodes EXCEPT ![i].alive = FALSE, ![i].det = TRUE]     \* the removed object (with its subtree) is detached
+            /\ cnt' = cnt /\ ins' = ins
             /\ op' = [a |-> "Remove", path |-> path, res |-> "ok", id |-> i]
+
+(* a parameter (or sub-map) that was removed is added to a map again, possibly a different one *)
+Move(i, par) ==
+    /\ More /\ i \in 2..cnt /\ nodes[i].det /\ Alive(par) /\ IsMap(par) /\ ~Under(par, i)
+    /\ \A a \in 1..cnt : Under(par, a) => nodes[a].alive
+    /\ IF ChildWithKey(par, nodes[i].key) # {}
+       THEN Same /\ op' = [a |-> "Move", id |-> i, par |-> par, res |-> "error"]
+       ELSE /\ nodes' = [nodes EXCEPT ![i].alive = TRUE, ![i].det = FALSE, ![i].parent = par, ![i].seq = ins + 1]
+            /\ ins' = ins + 1 /\ cnt' = cnt
+            /\ op' = [a |-> "Move", id |-> i, par |-> par, res |-> "ok"]
+
+ModelGet(path) ==
+    /\ More /\ Same
+    /\ LET i == Resolve(Root, path) IN
+       op' = [a |-> "ModelGet", path |-> path, res |-> IF i = 0 THEN "KeyError" ELSE "ok", id |-> i,
+              val |-> IF i = 0 THEN "none" ELSE nodes[i].val]
 
 Paths == UNION {[1..k -> Keys] : k \in 1..MaxPath}
 NewAny == \E kind \in Kinds, key \in Keys, par \in 1..cnt, d \in {"v1", "oob", "wrongtype"}, ro \in BOOLEAN, p \in Prios :
@@ -106,7 +125,9 @@ SetAny == \E i \in 2..cnt, v \in {"v1", "v2", "oob", "wrongtype"} : SetValue(i, 
 ModelSetAny == \E pth \in Paths, v \in {"v2", "oob", "wrongtype"} : ModelSet(pth, v)
 GetAny == \E pth \in Paths : Get(pth)
 RemoveAny == \E pth \in Paths : Remove(pth)
-Next == NewAny \/ SetAny \/ ModelSetAny \/ GetAny \/ RemoveAny
+MoveAny == \E i \in 2..cnt, par \in 1..cnt : Move(i, par)
+ModelGetAny == \E pth \in Paths : ModelGet(pth)
+Next == NewAny \/ SetAny \/ ModelSetAny \/ GetAny \/ RemoveAny \/ MoveAny \/ ModelGetAny
 Spec == Init /\ [][Next]_pvars
 
 -----------------------------------------------------------------------------
@@ -114,7 +135,7 @@ Leaves == {i \in 2..cnt : nodes[i].kind # "map"}
 ValueValid == \A i \in Leaves : nodes[i].val \in Valid
 DefaultNeverChanges == [][\A i \in 2..cnt : nodes'[i].def = nodes[i].def]_pvars
 ReadOnlyNeverChanges == [][\A i \in 2..cnt : nodes[i].ro => nodes'[i].val = nodes[i].val]_pvars
-RejectedLeavesUnchanged == [][(op'.res # "ok") => (nodes' = nodes /\ cnt' = cnt)]_pvars
+RejectedLeavesUnchanged == [][(op'.res # "ok") => (nodes' = nodes /\ cnt' = cnt /\ ins' = ins)]_pvars
 UniqueKeys == \A m \in 1..cnt : \A i, j \in Kids(m) : nodes[i].key = nodes[j].key => i = j
 EveryNodeReachable == \A i \in 2..cnt : (nodes[i].alive /\ \A a \in 1..cnt : Under(i, a) => nodes[a].alive) => Resolve(Root, PathOf(i)) = i
 ModelSetGetRoundTrip == [][(op'.a = "ModelSet" /\ op'.res = "ok") => nodes'[Resolve(Root, op'.path)].val = op'.vclass]_pvars
